@@ -6,6 +6,8 @@ import (
 	"bytes"
 	"strings"
 
+	proto "github.com/kubewharf/kubebrain-client/api/v2rpc"
+
 	"github.com/kubewharf/kubebrain/pkg/zzverif"
 )
 
@@ -61,6 +63,66 @@ func VerifC07Borders() {
 	zzverif.Assert(covered == want, "compaction ranges cover exactly the keys under the prefix and under no skipped prefix")
 	if nskip > 0 {
 		zzverif.Cover("with-skipped")
+	}
+	zzverif.Cover("done")
+}
+
+// VerifC07Interleave: one whole write (create over a tombstone, update, delete — symbolic kind and
+// expectation) lands between any two store operations of a compaction (or after all of them): no
+// scheduler involved, the write runs inside the store's operation hook, so every position is one
+// path and replays natively as is. The write keeps its normal semantics, reads at revisions >= R
+// are unchanged, and the key stays writable.
+func VerifC07Interleave() {
+	w := vNewWorld(1)
+	w.vScenario(zzverif.Choose("scenario", 3))
+	c := zzverif.U64("c")
+	zzverif.Assume(zzverif.And(c > w.base, c <= w.dealt))
+	req := w.newReq("wr")
+	wanted := req.wants(w.g)
+	at := zzverif.Choose("at", zzverif.Param("points", 10))
+	n, fired, inside := 0, false, false
+	w.s.Yield = func(p string) {
+		if inside || fired || strings.HasSuffix(p, "-done") {
+			return
+		}
+		if n == at {
+			fired, inside = true, true
+			w.issue(req)
+			inside = false
+		}
+		n++
+	}
+	w.b.Compact(vCtx(), c)
+	w.s.Yield = nil
+	if !fired {
+		w.issue(req) // the compaction had fewer operations: the write comes after it
+		zzverif.Cover("write-after-compaction")
+	} else {
+		zzverif.Cover("write-inside-compaction")
+	}
+	w.dealt++
+	zzverif.WaitIdle()
+	if req.err {
+		zzverif.Assert(req.exp > w.dealt, "interleaved write: error only for a future expected revision")
+	} else {
+		zzverif.Assert(req.ok == wanted, "a write landing inside a compaction keeps its normal semantics")
+		if req.ok {
+			req.apply(w.g)
+			zzverif.Cover("interleaved-write-succeeded")
+		}
+	}
+	r := zzverif.U64("R")
+	zzverif.Assume(zzverif.Or(r == 0, zzverif.And(r >= c, r <= w.dealt)))
+	w.checkGet(req.key, r)
+	key := req.key
+	if cur, live := w.g.At(key, 0); live {
+		resp, err := w.b.Update(vCtx(), &proto.UpdateRequest{Kv: &proto.KeyValue{Key: key, Value: []byte("z"), Revision: cur.Rev}})
+		zzverif.Assert(err == nil && resp.Succeeded, "afterwards a live key accepts an update naming its latest revision")
+		cr, err := w.b.Create(vCtx(), &proto.CreateRequest{Key: key, Value: []byte("y")})
+		zzverif.Assert(err == nil && !cr.Succeeded, "afterwards a live key refuses a second create")
+	} else {
+		cr, err := w.b.Create(vCtx(), &proto.CreateRequest{Key: key, Value: []byte("y")})
+		zzverif.Assert(err == nil && cr.Succeeded, "afterwards an absent key can be created")
 	}
 	zzverif.Cover("done")
 }
